@@ -3,6 +3,7 @@
 package props
 
 import (
+	gosql "database/sql"
 	"fmt"
 	"math/rand"
 	"os"
@@ -15,6 +16,7 @@ import (
 
 	"github.com/alicebob/sqlittle"
 	sdb "github.com/alicebob/sqlittle/db"
+	_ "github.com/alicebob/sqlittle/driver"
 	"github.com/anishathalye/porcupine"
 
 	"verifharness/hx"
@@ -220,6 +222,16 @@ func c08History(run *hx.Run, o *hx.Oracle, dir string, h int, steps int) {
 		return
 	}
 	defer low.Close()
+	// a prepared database/sql statement that lives as long as the history
+	var stmt *gosql.Stmt
+	if pool, err := gosql.Open("sqlittle", path); err == nil {
+		pool.SetMaxOpenConns(1)
+		defer pool.Close()
+		if st, err := pool.Prepare("SELECT * FROM t"); err == nil {
+			stmt = st
+			defer st.Close()
+		}
+	}
 	version := 0
 	nextTab := 0
 	var liveTabs, liveIdx, dropped []string
@@ -357,6 +369,34 @@ func c08History(run *hx.Run, o *hx.Oracle, dir string, h int, steps int) {
 				return
 			}
 			run.Count("rows_compared", n)
+		}
+		// the prepared statement sees the current columns and row count
+		if stmt != nil && step%2 == 0 {
+			wantCols, err1 := o.Query(path, "SELECT name FROM pragma_table_info('t') ORDER BY cid")
+			wantN, err2 := o.Query(path, "SELECT count(*) FROM t")
+			if err1 == nil && err2 == nil {
+				rs, err := stmt.Query()
+				run.Eval(1)
+				if err != nil {
+					fail("read-error/prepared-statement/"+w.kind, "prepared SELECT * FROM t: "+err.Error(), step)
+					return
+				}
+				cols, _ := rs.Columns()
+				n := int64(0)
+				for rs.Next() {
+					n++
+				}
+				rerr := rs.Err()
+				rs.Close()
+				var wc []string
+				for _, r := range wantCols {
+					wc = append(wc, r[0].(string))
+				}
+				if rerr != nil || strings.Join(cols, "\x00") != strings.Join(wc, "\x00") || n != wantN[0][0].(int64) {
+					fail("stale/prepared-statement", fmt.Sprintf("prepared SELECT * FROM t: columns %v, %d rows, err %v; SQLite now has columns %v and %v rows", cols, n, rerr, wc, wantN[0][0]), step)
+					return
+				}
+			}
 		}
 		// the version the handle sees must be the latest
 		if got, err, _ := collectSelect(db, "meta", []string{"version"}); err != nil || len(got) != 1 || got[0][0] != int64(version) {
